@@ -9,6 +9,7 @@ import (
 	"math"
 
 	m "github.com/Eyevinn/dash-mpd/mpd"
+	"github.com/Eyevinn/mp4ff/mp4"
 	"net"
 	"time"
 )
@@ -844,3 +845,30 @@ func cfgValidScalars(cfg *ResponseConfig) bool {
 //@ startup_funcs SetupServer, newAssetMgr, discoverAssets, loadAsset, loadRep, loadFromJSON, writeToJSON, addRegExpAndInit, consolidateAsset, setReferenceRep, addEncryption, readMP4Segment, readInit, addAsset, compileTemplates, addMPDData, NewCmafIngesterMgr, Start, createLimiter, NewIPRequestLimiter, Run, main
 
 //@ guarded_by cmafIngesterMgr.noLockExists: ingesters, cancels, state
+
+// ---------------------------------------------------------------------------
+// C01/C13 wiring of genLiveSegment (abstract: the mp4ff object graph is opaque; only the
+// call-site obligations below are claimed, not memory safety of the function)
+
+// tfdtTime: the base media decode time held by a tfdt box (uninterpreted getter model).
+func tfdtTime(t *mp4.TfdtBox) uint64 { return t.BaseMediaDecodeTime() }
+
+//@ uninterpreted tfdtTime
+//@ extern func (*github.com/Eyevinn/mp4ff/mp4.TfdtBox).BaseMediaDecodeTime(t) (r)
+//@   ensures r == tfdtTime(t)
+
+//@ func createOutSeg
+//@   trusted
+//@   returns (so, err)
+//@   ensures err == nil ==> so.meta.rep != nil
+
+// genLiveSegment: every fragment's decode time moves by the same offset (new segment start minus
+// the first fragment's old decode time), and the SCTE-35 announce test is made for exactly this
+// segment's interval [newTime, newTime+newDur], timescale and configured schedule, for video only.
+//@ func genLiveSegment
+//@   wiring
+//@   callsite SetBaseMediaDecodeTime requires sameShift: arg1 == tfdtTime(arg0) + (outSeg.meta.newTime - tfdtTime(seg.Fragments[0].Moof.Traf.Tfdt))
+//@   callsite CreateEmsgAhead requires interval: arg_segStart == outSeg.meta.newTime && arg_segEnd == outSeg.meta.newTime + uint64(outSeg.meta.newDur) && arg_timescale == uint64(outSeg.meta.timescale) && arg_perMinute == *cfg.SCTE35PerMinute
+//@   callsite CreateEmsgAhead requires videoOnly: outSeg.meta.rep.ContentType == "video"
+//@   loop 1 invariant true
+//@   loop 2 invariant true
